@@ -2500,6 +2500,13 @@ def bounds_of(t, facts, _depth=0):
             hi = 256 ** n - 1
     elif T.is_op(t, 'SK_ADD_INT') or (T.is_op(t, 'MOD') and t[3] == T.CURVE_N):
         lo, hi = 0, N_VALUE - 1
+    elif T.is_op(t, 'LEN') and len(t) == 3 and T.is_op(t[2], 'STR') and len(t[2]) == 3 and T.type_of(t[2][2]) == 'int' and _depth < 4:
+        # number of characters of the decimal rendering of an integer with known bounds
+        l2, h2 = bounds_of(t[2][2], facts, _depth + 1)
+        lo = 1
+        if l2 is not None and h2 is not None:
+            lens_ = [len(str(l2)), len(str(h2))] + ([1] if l2 <= 0 <= h2 else [])
+            lo, hi = min(lens_), max(lens_)
     elif (T.is_op(t, 'FIND') or T.is_op(t, 'RFIND')) and len(t) == 4 and T.is_const(t[2]) and isinstance(t[2][1], (str, bytes)):
         # position of x in a constant text: -1 (absent) .. len-1; a single character known to differ from every letter is absent
         lo, hi = -1, max(len(t[2][1]) - 1, -1)
